@@ -251,6 +251,7 @@ class Type4Tag(nfc.tag.Tag):
                 return False
 
             capabilities += (15-len(capabilities)) * b"\0"  # for unpack
+            capabilities = capabilities[0:15]
             ver, mle, mlc, tag, val = unpack(">BHHB9p", capabilities)
             log.debug("ndef mapping version %d.%d", ver >> 4, ver & 15)
             log.debug("max apdu response length %d", mle)
@@ -303,11 +304,19 @@ class Type4Tag(nfc.tag.Tag):
 
                 nlen = unpack(lfmt, nlen)[0]
                 log.debug("ndef data length is {0}".format(nlen))
+                if nlen > self._capacity or self._nlen_size + nlen > 0x10000:
+                    log.warning("ndef data length exceeds the file size")
+                    return None
 
                 data = bytearray()
                 while len(data) < nlen:
                     offset = self._nlen_size + len(data)
-                    data += self._read_binary(offset, nlen - len(data))
+                    size = nlen - len(data)
+                    more = self._read_binary(offset, size)
+                    if len(more) == 0 or len(more) > size:
+                        log.warning("invalid read binary response length")
+                        return None
+                    data += more
 
             except Type4TagCommandError:
                 return None
